@@ -850,6 +850,8 @@ class Corr:
                 raise Exception("no plateau range provided")
         if self.N != 1:
             raise ValueError("Correlator must be projected before getting a plateau.")
+        if not (0 <= plateau_range[0] <= plateau_range[1] < self.T):
+            raise ValueError("The plateau range has to lie within the timeslices 0 to T-1.")
         if (all([self.content[t] is None for t in range(plateau_range[0], plateau_range[1] + 1)])):
             raise ValueError("plateau is undefined at all timeslices in plateaurange.")
         if auto_gamma:
